@@ -204,3 +204,5 @@ fn(HF + ':get_indent', props=['C12'],
 # was attempted and withdrawn: after the attribute loop and five or six contract calls the obligations
 # `os_ok(out)` / `value_ok(node.value)` carry store chains over 600 path facts and both z3 and cvc5 answer
 # `unknown`.  The clause is covered by the bounded clause indent-equals-depth; see DESIGN.md section 11.
+
+# (second attempt after the conjunction change: 76 of 323 obligations within a 240 s budget; withdrawn again)
